@@ -31,6 +31,17 @@
 (*                          the key behind with an empty value             *)
 (*                          -> HistoryFree (paragraph after ValueError)    *)
 (* were run; c08.py re-runs them in every check.                           *)
+(* Same-key histories (UseExt = TRUE: the values additionally hold the     *)
+(* prefix chain "x\r" < "x\r x", "x\rx:x", cut at a bare CR): the verdict  *)
+(* of o[k] = v does not depend on the value STORED under k either -- not   *)
+(* when v extends it, is a prefix of it or shares a prefix with it.        *)
+(* HistoryFree / HistSound hold on the closed state space (keys A / Files);*)
+(* negative control                                                        *)
+(*   AppendFastPath         only the text appended to the stored value is  *)
+(*                          validated, its first line being taken for the  *)
+(*                          rest of the stored last line                   *)
+(*                          -> Assign(o, A, "x\r"); Assign(o, A, "x\rx:x")*)
+(*                             is accepted: HistoryFree, HistSound         *)
 (* Construction (WithBuild = TRUE, MC_Deb822ValueHist_build.cfg: keys A /  *)
 (* Files, every live paragraph may become EMPTY and be filled again):      *)
 (*   Fresh(o, how)    live object o is replaced by an EMPTY paragraph of   *)
@@ -112,7 +123,9 @@ CONSTANTS MemoMode, RejectStoresEmpty, EmitH,
           WithBuild,                               \* TRUE: Fresh and Rebuild are enabled
           TrustSourceClass, ParseLeavesUnchecked,  \* negative controls of the construction layer (FALSE)
           WithFault,                               \* TRUE: FaultDump / FaultBuild are enabled
-          DumpMemoPartial                          \* negative control of the fault layer (FALSE)
+          DumpMemoPartial,                         \* negative control of the fault layer (FALSE)
+          UseExt,                                  \* TRUE: the values include a PREFIX CHAIN cut at a bare CR (ExtCR)
+          AppendFastPath                           \* negative control of the same-key histories (FALSE)
 
 ASSUME WithBuild => MemoMode = "none"              \* (the memo controls are run without construction)
 
@@ -132,7 +145,14 @@ VX     == <<120>>                                  \* "x"       initial value of
 VG     == <<120, 10, 32, 120>>                     \* "x\n x"   accepted
 VB1    == <<120, 10, 120, 58, 120>>                \* "x\nx:x"  would inject field x
 VB2    == <<120, 10>>                              \* "x\n"     would split the paragraph
-HValues == {VG, VB1, VB2}
+\* values that EXTEND one another, cut at a line boundary of the domain: assigning them one after the other
+\* to the SAME key makes the stored value a proper prefix of the new one ("x\r" is one line for
+\* str.splitlines(), what follows it starts a NEW line)
+VC     == <<120, 13>>                              \* "x\r"     accepted
+VCG    == <<120, 13, 32, 120>>                     \* "x\r x"   accepted, extends VC
+VCB    == <<120, 13, 120, 58, 120>>                \* "x\rx:x"  extends VC; str input reads a field x back
+ExtCR  == {VC, VCG, VCB}
+HValues == {VG, VB1, VB2} \cup (IF UseExt THEN ExtCR ELSE {})
 
 IsMultiKey(c, k) == c = "S" /\ SameName(k, KF)
 HasKey(p, k)     == \E i \in 1..Len(p) : SameName(p[i].k, k)
@@ -150,6 +170,13 @@ Verdict(c, k, v) == IF MemoMode # "none" /\ MemoKey(c, k, v) \in DOMAIN memo THE
                     ELSE Validate(v)
 Remember(c, k, v) == IF MemoMode = "none" \/ MemoKey(c, k, v) \in DOMAIN memo THEN memo
                      ELSE memo @@ (MemoKey(c, k, v) :> Verdict(c, k, v))
+\* negative control AppendFastPath: "the stored value was validated when it was assigned, so only the text
+\* appended to it needs checking" -- the value handed to the validator is the appended text alone when the
+\* stored value is a proper prefix of the new one (the code always hands over the whole value)
+StoredOf(p, k) == p[CHOOSE i \in 1..Len(p) : SameName(p[i].k, k)].v
+IsProperPrefix(a, b) == Len(a) > 0 /\ Len(a) < Len(b) /\ SubSeq(b, 1, Len(a)) = a
+Checked(p, k, v) == IF AppendFastPath /\ HasKey(p, k) /\ IsProperPrefix(StoredOf(p, k), v)
+                    THEN SubSeq(v, Len(StoredOf(p, k)) + 1, Len(v)) ELSE v
 ImplPara(p, k, v, verdict) == IF verdict = "ok" THEN SetField(p, k, v)
                               ELSE IF RejectStoresEmpty /\ ~HasKey(p, k) THEN Append(p, [k |-> k, v |-> <<>>])
                               ELSE p
@@ -183,7 +210,7 @@ HInit == /\ hp = [o \in Objs |-> << [k |-> KA, v |-> VX] >>]
                          PrintT(<<"VALUE", ToJson([v |-> v, cls |-> Classify(v), segs |-> Segs(v)])>>))
 
 Assign(o, k, v) == /\ ~IsMultiKey(HCls[o], k)
-                   /\ LET vd == IF o \in unchk THEN "ok" ELSE Verdict(HCls[o], k, v) IN
+                   /\ LET vd == IF o \in unchk THEN "ok" ELSE Verdict(HCls[o], k, Checked(hp[o], k, v)) IN
                         /\ hp' = [hp EXCEPT ![o] = ImplPara(hp[o], k, v, vd)]
                         /\ memo' = Remember(HCls[o], k, v)
                         /\ hres' = [NoHres EXCEPT !.op = "assign", !.o = o, !.k = k, !.v = v, !.res = vd]
